@@ -303,6 +303,52 @@ fn environments_part<V: Variant>(ctx: &mut Ctx, tier: Tier, keys: &[KeyCtx<V>]) 
         t.into_part(ctx, part);
     }
 
+    // key objects that replace one another in the same variable: whatever the library remembers about "the key at
+    // this address" must not outlive the key
+    {
+        let seeds: Vec<u64> = vec![0, 1, 2, 1];
+        let msg: &[u8] = b"key slot reuse";
+        let baseline: Vec<Vec<u8>> = seeds.iter().map(|&s| { let k = make_key::<V>(s); V::sig_to_bytes(&with_stream(15, || V::sign(msg, &k.sk))) }).collect();
+        let sd = seeds.clone();
+        let got = crate::sched::on_fresh_thread(move || {
+            let mut out: Vec<(Vec<u8>, bool, bool)> = vec![];
+            let mut cur = V::keygen(seed_bytes(sd[0]));
+            for (i, &s) in sd.iter().enumerate() {
+                if i > 0 {
+                    cur = V::keygen(seed_bytes(s)); // drops the old pair, moves the new one into the same place
+                }
+                let sig = with_stream(15, || V::sign(msg, &cur.0));
+                let ok = V::verify(msg, &sig, &cur.1);
+                let other = V::verify(b"another message", &sig, &cur.1);
+                out.push((V::sig_to_bytes(&sig), ok, other));
+            }
+            out
+        });
+        let mut t = Tally::default();
+        match got {
+            Ok(v) => {
+                for (i, (sb, ok, other)) in v.iter().enumerate() {
+                    t.cases += 1;
+                    t.calls += 3;
+                    let case = || json!({"kind":"slot","variant":V::N,"step":i});
+                    if !ok {
+                        t.viol(format!("signature-rejected:n={}:key-slot-reuse", V::N), format!("{}: key pair number {} placed in a variable that held other key pairs before: its own honest signature is rejected by verify", V::name(), i + 1), case());
+                    } else if *other {
+                        t.viol(format!("verify-accepts-other-message:n={}:key-slot-reuse", V::N), format!("{}: key pair number {} in a reused variable: verify accepts the signature for a different message", V::name(), i + 1), case());
+                    } else if *sb != baseline[i] {
+                        t.viol(format!("signature-differs:n={}:key-slot-reuse", V::N), format!("{}: key pair number {} (seed {}) in a reused variable signs differently (same signer stream) than the same key held in its own object", V::name(), i + 1, seeds[i]), case());
+                    } else {
+                        t.out("verifies, same bytes as with a key of its own");
+                    }
+                }
+            }
+            Err(e) => t.viol(format!("sign-or-verify-panic:n={}:key-slot-reuse", V::N), format!("{}: panic while keys replace one another in one variable: {}", V::name(), e), json!({"kind":"slot","variant":V::N})),
+        }
+        let mut part = Part::new(&format!("key_slot_reuse_{}", V::N), "four key pairs (seeds 0, 1, 2, 1) assigned one after the other to the same local variable on a fresh thread; each signs (fixed signer stream) and verifies: the signature verifies, is rejected for another message, and equals byte for byte the one made with the same key held in an object of its own");
+        part.exhaustive = true;
+        t.into_part(ctx, part);
+    }
+
     // HashToPoint's XOF stream as an environment answer: sign and verify under the same scripted chunk stream
     {
         let fam: Vec<(String, Vec<u16>)> = super::c14::scripted_streams(V::N, false).into_iter().filter(|(name, _)| name.starts_with("constant") || name.contains("spread") || name.starts_with("every") || name.contains("run of 8 ") || name.contains("run of 64 ") || name.contains("run of 2048 ")).collect();
@@ -588,6 +634,7 @@ pub fn replay(case: &Value) -> Result<Option<String>, String> {
             }
             Ok(if variant == 512 { one::<V512>(seed, &msg, stream, &devs) } else { one::<V1024>(seed, &msg, stream, &devs) })
         }
+        "slot" => Err("re-run ./vf check C01 (the slot history is enumerated deterministically)".into()),
         "xof-stream" => Err("re-run ./vf check C01 (the stream family is enumerated deterministically)".into()),
         "tight" => {
             let seed = case.get("seed").and_then(|x| x.as_u64()).ok_or("seed")?;
